@@ -75,6 +75,14 @@ INFO = {
  'C21-c': ('C21', 'derive for tuple-struct compounds compares self with self in PartialEq: needs two tuple-struct compounds of the same type with different fields', ['C21']),
  'C23-c': ('C23', 'verify_all_bound looks the domain up under the unwalked operand: needs an FD constraint on x, x == y binding x, both hidden and unbound at reification', ['C23', 'C16']),
  'C24-c': ('C24', 'process_extension_diseq skips run_constraints when a binding maps a variable to an unconstrained unbound variable: needs var-to-var aliasing after distinct/member1/rember with nothing ground afterwards', ['C24', 'C02']),
+ 'C05-d': ('C05', 'DFSConj::from_conjunctions folds forwards (from_iter) and loses the reversal: needs >= 2 comma-separated clauses directly in a dfs { } body, two of them with several answers', ['C05']),
+ 'C07-d': ('C07', 'Conde::from_conjunctions skips empty clauses: needs the empty clause [] (an empty conjunction, which succeeds once) as a branch', ['C07', 'C10']),
+ 'C10-d': ('C10', 'the macro consumes the arm body for the first alternative only: needs a match arm p0 | p1 with a non-empty body (later alternatives lose the body)', ['C13']),
+ 'C11-d': ('C11', 'compound_walk_star of an LTerm field does a plain walk unless the field is a nested compound: needs the projected variable to walk to a compound whose field is a list holding a bound variable', ['C11', 'C20']),
+ 'C12-d': ('C12', 'InferredConj::from_iter returns succeed when size_hint().0 == 0: needs a non-empty LTerm-list collection (its iterator reports (0, None))', ['C12']),
+ 'C15-d': ('C15', 'the variable-id counter is thread-local and rewound to a mark taken at Query::new whenever a query is run: needs two iterators alive at once (an older query run while a younger one is suspended and still creates variables lazily)', ['C09']),
+ 'C19-d': ('C19', 'plusz solving for its first operand binds the UNWALKED operand: needs the operand aliased before (x == y with x on the left) and the result observed through the alias', ['C19']),
+ 'C24-d': ('C24', 'occurs_check follows the list spine without walking tail variables: needs a cycle that closes through a bound tail variable (append([1, 2], t, t))', ['C24', 'C01']),
 }
 logs = ''
 for f in glob.glob(os.path.join(ROOT, 'verify_wave*.log')) + glob.glob('/tmp/verify_wave*.log'):
@@ -85,7 +93,7 @@ def results(dirname):
     return out
 blocks = {}
 for f in sorted(set(glob.glob(os.path.join(ROOT, 'verify_wave*.log')) + glob.glob('/tmp/verify_wave*.log'))):
-    rnd = 'c' if ('wave6' in f or 'wave7' in f) else ('b' if ('wave4' in f or 'wave5' in f) else 'a')
+    rnd = 'd' if 'wave8' in f else 'c' if ('wave6' in f or 'wave7' in f) else ('b' if ('wave4' in f or 'wave5' in f) else 'a')
     cur = None
     for line in open(f):
         m = re.match(r'== (C\d\d)', line)
